@@ -13,6 +13,7 @@ import (
 	"runtime"
 	"slices"
 	"strings"
+	"time"
 
 	"golang.org/x/tools/go/ssa"
 )
@@ -102,6 +103,9 @@ type interpreter struct {
 	modelMemo map[int]uint64
 	modelHits int
 	obs     []obsRec
+	whys    []string
+	pathNo  int
+	expectWhys []string
 	restTop *frame
 	lastAbort string
 }
@@ -144,12 +148,18 @@ func (fr *frame) get(key ssa.Value) value {
 	case *ssa.Const:
 		return constValue(key)
 	case *ssa.Global:
-		if r, ok := fr.i.globals[key]; ok {
-			if key.Pkg != nil {
-				fr.i.ensureInit(key.Pkg)
-			}
-			return r
+		r, ok := fr.i.globals[key]
+		if !ok {
+			// lazily allocated (some packages have huge table globals nobody touches)
+			cell := make([]value, 1)
+			cell[0] = zero(mustDeref(key.Type()))
+			r = &cell[0]
+			fr.i.globals[key] = r
 		}
+		if key.Pkg != nil {
+			fr.i.ensureInit(key.Pkg)
+		}
+		return r
 	}
 	if r, ok := fr.env[key]; ok {
 		return r
@@ -304,6 +314,10 @@ func visitInstr(fr *frame, instr ssa.Instruction) continuation {
 		i.chanSend(fr.get(instr.Chan).(*chanV), fr.get(instr.X))
 
 	case *ssa.Store:
+		if sp, ok := fr.get(instr.Addr).(symPtr); ok {
+			i.symStore(sp, fr.get(instr.Val))
+			break
+		}
 		i.store(mustDeref(instr.Addr.Type()), fr.get(instr.Addr).(*value), fr.get(instr.Val))
 
 	case *ssa.If:
@@ -401,14 +415,31 @@ func visitInstr(fr *frame, instr ssa.Instruction) continuation {
 	case *ssa.IndexAddr:
 		x := fr.get(instr.X)
 		idx := fr.get(instr.Index)
+		_, symIdx := idx.(*Term)
+		scalarElem := false
+		if symIdx {
+			if _, _, fl, ok := basicInfo(mustDeref(instr.Type())); ok && !fl {
+				scalarElem = true
+			}
+		}
 		switch x := x.(type) {
 		case []value:
+			if symIdx && scalarElem && len(x) > 0 {
+				i.boundsCheck(idx.(*Term), len(x))
+				fr.env[instr] = symPtr{x, idx.(*Term)}
+				break
+			}
 			fr.env[instr] = &x[i.indexInt(idx, len(x))]
 		case *value: // *array
 			if x == nil {
 				panic(runtimeError("invalid memory address or nil pointer dereference"))
 			}
 			a := (*x).(array)
+			if symIdx && scalarElem && len(a) > 0 {
+				i.boundsCheck(idx.(*Term), len(a))
+				fr.env[instr] = symPtr{[]value(a), idx.(*Term)}
+				break
+			}
 			fr.env[instr] = &a[i.indexInt(idx, len(a))]
 		default:
 			panic(fmt.Sprintf("unexpected x type in IndexAddr: %T", x))
@@ -759,6 +790,12 @@ func (i *interpreter) ensureInit(pkg *ssa.Package) {
 		return
 	}
 	i.inited[pkg] = 1
+	t0 := time.Now()
+	defer func() {
+		if d := time.Since(t0); d > 300*time.Millisecond && os.Getenv("GOSYM_PROGRESS") != "" {
+			fmt.Fprintf(os.Stderr, "init %s took %v\n", path, d)
+		}
+	}()
 	savedJ, savedMerge, savedSteps := i.journaling, i.inMerge, i.steps
 	i.journaling = false
 	i.inMerge = 0
@@ -807,14 +844,6 @@ func newInterpreter(sh *Program) *interpreter {
 		i.runtimeErrorString = runtimePkg.Type("errorString").Object().Type()
 	}
 	initReflect(i)
-	for _, pkg := range i.prog.AllPackages() {
-		for _, m := range pkg.Members {
-			if v, ok := m.(*ssa.Global); ok {
-				cell := zero(mustDeref(v.Type()))
-				i.globals[v] = &cell
-			}
-		}
-	}
 	return i
 }
 
